@@ -1,10 +1,58 @@
 // ---- tree predictor (tree_predictor.rs): the operations emitted for a dynamic header (frozen format at header level) ----
-// A-DET: the prediction helpers are functions of their arguments (bodies not verified)
+// A-DET: calc_bit_lengths (huffman_calc.rs) is a function of its arguments (body not verified)
 pub uninterp spec fn sp_bitlen(calc: HufftreeBitCalc, freq: Seq<u16>, limit: int) -> Seq<u8>;
-pub uninterp spec fn sp_pct(syms: Seq<u8>, prev: Option<u8>) -> TreeCodeType;
-pub uninterp spec fn sp_pcd(syms: Seq<u8>, t: TreeCodeType) -> u8;
-pub uninterp spec fn sp_ctfreq(items: Seq<(TreeCodeType, u8)>) -> Seq<u16>;
-pub uninterp spec fn sp_tclen(tc: Seq<u8>) -> int;
+// The four small helpers of the tree predictor are written out (proved in U22 against the real bodies). FROZEN FORMAT
+// (C04): the run-length thresholds 3 / 11, the run maxima 6 / 10 / 138 and the trailing-zero rule decide what the
+// stored tree corrections mean.
+/// first index in [start, max) at which s differs from v (max if there is none); start if start >= max
+pub open spec fn run_end(s: Seq<u8>, v: u8, start: int, max: int) -> int
+    decreases max - start
+{ if start < max && 0 <= start < s.len() && s[start] == v { run_end(s, v, start + 1, max) } else { start } }
+pub open spec fn min_int(a: int, b: int) -> int { if a < b { a } else { b } }
+#[verifier::opaque]
+pub open spec fn sp_pct(syms: Seq<u8>, prev: Option<u8>) -> TreeCodeType {
+    if syms[0] == 0 {
+        let c = run_end(syms, 0, 1, min_int(syms.len() as int, 11));
+        if c >= 11 { TreeCodeType::ZeroLong } else if c >= 3 { TreeCodeType::ZeroShort } else { TreeCodeType::Code }
+    } else {
+        match prev {
+            Some(code) => if run_end(syms, code, 0, syms.len() as int) >= 3 { TreeCodeType::Repeat } else { TreeCodeType::Code },
+            None => TreeCodeType::Code,
+        }
+    }
+}
+#[verifier::opaque]
+pub open spec fn sp_pcd(syms: Seq<u8>, t: TreeCodeType) -> u8 {
+    match t {
+        TreeCodeType::Code => syms[0],
+        TreeCodeType::Repeat => run_end(syms, syms[0], 3, min_int(syms.len() as int, 6)) as u8,
+        TreeCodeType::ZeroShort => run_end(syms, 0, 3, min_int(syms.len() as int, 10)) as u8,
+        TreeCodeType::ZeroLong => run_end(syms, 0, 11, min_int(syms.len() as int, 138)) as u8,
+    }
+}
+/// which of the 19 code-length symbols a run-length item is
+pub open spec fn item_sym(it: (TreeCodeType, u8)) -> int { match it.0 { TreeCodeType::Code => it.1 as int, TreeCodeType::Repeat => 16, TreeCodeType::ZeroShort => 17, TreeCodeType::ZeroLong => 18 } }
+pub open spec fn item_count(items: Seq<(TreeCodeType, u8)>, sym: int) -> int
+    decreases items.len()
+{ if items.len() == 0 { 0 } else { item_count(items.drop_last(), sym) + if item_sym(items.last()) == sym { 1int } else { 0int } } }
+#[verifier::opaque]
+pub open spec fn sp_ctfreq(items: Seq<(TreeCodeType, u8)>) -> Seq<u16> { Seq::new(19, |sym: int| item_count(items, sym) as u16) }
+/// number of code-length-code entries that are announced: trailing zeros in the order of the RFC are dropped, at least 4
+pub open spec fn tclen_from(tc: Seq<u8>, len: int) -> int
+    decreases len
+{
+    if len > 4 && len <= 19 && (TREE_CODE_ORDER_TABLE[len - 1] >= tc.len() || tc[TREE_CODE_ORDER_TABLE[len - 1] as int] == 0) { tclen_from(tc, len - 1) } else { len }
+}
+#[verifier::opaque]
+pub open spec fn sp_tclen(tc: Seq<u8>) -> int { tclen_from(tc, tc.len() as int) }
+pub proof fn lemma_item_count_bound(items: Seq<(TreeCodeType, u8)>, sym: int)
+    ensures 0 <= item_count(items, sym) <= items.len(),
+    decreases items.len()
+{ if items.len() > 0 { lemma_item_count_bound(items.drop_last(), sym); } }
+pub proof fn lemma_run_end_bounds(s: Seq<u8>, v: u8, start: int, max: int)
+    ensures start <= run_end(s, v, start, max), start <= max ==> run_end(s, v, start, max) <= max,
+    decreases max - start
+{ if start < max && 0 <= start < s.len() && s[start] == v { lemma_run_end_bounds(s, v, start + 1, max); } }
 
 pub open spec fn m_lc() -> int { CodecMisprediction::LiteralCountMisprediction as int }
 pub open spec fn m_dc() -> int { CodecMisprediction::DistanceCountMisprediction as int }
